@@ -251,6 +251,7 @@ type summary struct {
 	MdnsReports       int64            `json:"mdns_reports_to_hubs"`
 	FakeMdnsCalls     map[string]int64 `json:"fake_mdns_calls"`
 	RealMdns          map[string]any   `json:"real_mdns"`
+	AvahiProvider     map[string]any   `json:"avahi_provider"`
 	Ghost             map[string]int64 `json:"ghost_client"`
 	HostilePhases     int64            `json:"hostile_phases"`
 	CloserRounds      int64            `json:"closer_rounds"`
@@ -337,6 +338,9 @@ func buildSummary(watchdog bool) *summary {
 	}
 	s.Handshakes = s.Callbacks["SetupRemoteDevice"]
 	s.Ghost = ghost.summary()
+	if ap := theAvahiPart.Load(); ap != nil {
+		s.AvahiProvider = ap.summary()
+	}
 	if rm := theRealMdns.Load(); rm != nil {
 		s.RealMdns = rm.summary()
 	}
@@ -499,6 +503,7 @@ func stress() {
 	}
 	rm := startRealMdns(peers[0].ski, int(peers[0].port.Load()), rng.Fork(), globalStop, globalWg)
 	theRealMdns.Store(rm)
+	theAvahiPart.Store(startAvahiPart(rng.Fork(), globalStop, globalWg))
 
 	// stress with churn, driven from the main goroutine
 	for {
